@@ -270,6 +270,13 @@ package filters
 //@ props C01 C15
 //@ panics nothing
 //@ requires inrange: 0 <= i && i < len(s.slice) && 0 <= j && j < len(s.slice) && s.keyFn != nil
+//@ ghost ka string = ""
+//@ ghost kb string = ""
+//@ at call keyFn #1 before assert left: arg0 == s.slice[i]
+//@ at call keyFn #1: ka = result
+//@ at call keyFn #2 before assert right: arg0 == s.slice[j]
+//@ at call keyFn #2: kb = result
+//@ ensures byKey: result == (ka < kb)
 //@ func functype func(any) string
 //@ names m
 //@ assigns nothing
